@@ -438,14 +438,14 @@ def parse_plan_line(line):
 # ---------------------------------------------------------------------------------- (a) pwv / propagate scripts
 def gen_pwv_scripts(rng, nrand):
     lines = []
-    for kind in ("point", "uni", "dint", "car"):
+    for kind in ("point", "uni", "dint", "car", "dpoint"):
         sy = make_sys(kind, 0)
         st = full_state(kind, [2.0, 3.0])
         if kind in ("uni", "car"):
             st[2] = 3.0      # near the +pi seam so that the wrap is exercised
         if kind == "dint":
             st[2], st[3] = 0.5, -0.25
-        ct = [1.2, 1.1] if kind == "uni" else ([1.3, 0.5] if kind == "car" else [0.7, -0.9])
+        ct = [1.2, 1.1] if kind == "uni" else ([1.3, 0.5] if kind == "car" else ([5.0, 0.0] if kind == "dpoint" else [0.7, -0.9]))
         base = sy.toks()
         tail = ["st"] + [B(x) for x in st] + ["ct"] + [B(x) for x in ct]
         for steps in (0, 1, 2, 5, -1, -4):
@@ -463,12 +463,14 @@ def gen_pwv_scripts(rng, nrand):
             for f in (["single"], ["alias"], ["vec", "1"], ["vec", "0", "4"]):
                 lines.append(" ".join(["pwv"] + base + f + [str(steps), "v", "e"] + env + tail))
     for _ in range(nrand):
-        kind = rng.choice(["point", "uni", "dint", "car"])
+        kind = rng.choice(["point", "uni", "dint", "car", "dpoint"])
         sy = make_sys(kind, rng.below(6))
         st = full_state(kind, [rng.uniform(0, 10), rng.uniform(0, 10)], rng)
         if kind == "dint":
             st[2], st[3] = rng.uniform(-1.5, 1.5), rng.uniform(-1.5, 1.5)
         ct = [rng.uniform(sy.clo[0], sy.chi[0]), rng.uniform(sy.clo[1], sy.chi[1])]
+        if kind == "dpoint":
+            ct = [float(rng.range(-9, 17)), 0.0]      # also values outside the range: the propagator is total
         steps = rng.range(-12, 12)
         f = rng.choice([["single"], ["alias"], ["vec", "1"], ["vec", "0", str(rng.range(0, 14))]])
         tail = ["st"] + [B(x) for x in st] + ["ct"] + [B(x) for x in ct]
@@ -771,6 +773,388 @@ def gen_synth_paths(rng):
     return lines
 
 
+
+# ---------------------------------------------------------------------------------- reconfiguration histories, re-entrancy
+def new_bounds(rng, sy, clo, chi, allow):
+    """(lo, hi, what): control bounds narrower / shifted / wider than (clo, chi); `allow` restricts the kinds"""
+    what = rng.choice(allow)
+    lo, hi = list(clo), list(chi)
+    if sy.kind == "dpoint":
+        a, b = int(clo[0]), int(chi[0])
+        if what == "narrower":
+            n = max(1, (b - a + 1) // 2)
+            a2 = a if rng.chance(2, 3) else a + rng.range(0, (b - a + 1) - n)
+            return [float(a2), 0.0], [float(a2 + n - 1), 0.0], what
+        if what == "shifted":
+            d = rng.choice([-5, -2, 3, 8])
+            return [float(a + d), 0.0], [float(b + d), 0.0], what
+        return [float(a - rng.range(0, 3)), 0.0], [float(b + rng.range(1, 4)), 0.0], what
+    for j in range(2):
+        w = chi[j] - clo[j]
+        if what == "narrower":
+            f0 = rng.choice([0.0, 0.0, 0.25, 0.5])
+            lo[j], hi[j] = clo[j] + f0 * w, clo[j] + (f0 + 0.5) * w
+        elif what == "shifted":
+            d = rng.choice([-0.75, 0.6, 1.25]) * (w if w > 0 else 1.0)
+            lo[j], hi[j] = clo[j] + d, chi[j] + d
+        else:
+            lo[j], hi[j] = clo[j] - rng.choice([0.0, 0.5]) * (w + 0.5), chi[j] + rng.choice([0.25, 1.0]) * (w + 0.5)
+    if sy.kind in ("car",):      # keep the steering angle away from +-pi/2
+        lo[1], hi[1] = max(lo[1], -1.2), min(hi[1], 1.2)
+        if lo[1] > hi[1]:
+            lo[1], hi[1] = clo[1], chi[1]
+    return lo, hi, what
+
+
+def gen_reconf_ops(rng, sy, nphases):
+    """ops of one reconfiguration history: solve, then per phase a reconfiguration group and another solve.  A group either
+    clears the planner (then anything may change: bounds narrower / shifted / wider, durations, step size; optionally
+    followed by setup) or lets it continue (then only what leaves the kept tree meaningful changes: wider or — judged
+    against the hull — other bounds, durations)."""
+    ops = ["solve", str(rng.choice([20, 150, 600]))]
+    clo, chi, dt = list(sy.clo), list(sy.chi), sy.dt
+    tags = []
+    for _ in range(nphases):
+        cleared = rng.chance(2, 3)
+        ops += ["clear"] if cleared else ["clearsol"]
+        nchg = 0
+        if rng.chance(3, 4):
+            lo, hi, what = new_bounds(rng, sy, clo, chi, ["narrower", "narrower", "shifted", "wider"] if cleared else ["wider", "wider", "narrower", "shifted"])
+            ops += ["cb", B(lo[0]), B(lo[1]), B(hi[0]), B(hi[1])]
+            clo, chi = lo, hi
+            tags.append(("clear+" if cleared else "continue+") + "bounds-" + what)
+            nchg += 1
+        if rng.chance(1, 3):
+            mn = rng.choice([1, 1, 2, 4])
+            mx = mn + rng.choice([0, 1, 5, 20])
+            ops += ["mm", str(mn), str(mx)]
+            tags.append(("clear+" if cleared else "continue+") + "durations")
+            nchg += 1
+        if cleared and sy.kind != "ode" and (rng.chance(1, 3) or nchg == 0):
+            dt = rng.choice([0.1, 0.25, 0.3, 0.5, 0.7, 0.15])
+            ops += ["dt", B(dt)]
+            tags.append("clear+step-size")
+        if rng.chance(1, 3):
+            ops += ["setup"]
+            tags.append("setup")
+        ops += ["solve", str(rng.choice([100, 800, 2500]))]
+        if rng.chance(1, 4):
+            ops += ["solve", str(rng.choice([50, 400]))]
+    return ops, tags
+
+
+def hist_walk(pb, line):
+    """replays the ops of a `hist` line on the check's side: for every `solve` the system then in force (a copy of pb with
+    the current control bounds / durations / step size) and the control-bounds hull since the last clear()"""
+    t = line.split()
+    ops = t[t.index("ops") + 1:]
+    sy0 = pb.sy
+    cur = {"clo": list(sy0.clo), "chi": list(sy0.chi), "dt": sy0.dt, "mn": sy0.mn, "mx": sy0.mx}
+    hull = None
+    per_solve = []
+    reconfigured = False
+    i = 0
+    while i < len(ops):
+        o = ops[i]
+        if o == "solve":
+            lo, hi = cur["clo"], cur["chi"]
+            hull = (list(lo), list(hi)) if hull is None else ([min(a, b) for a, b in zip(hull[0], lo)], [max(a, b) for a, b in zip(hull[1], hi)])
+            sy = Sys(sy0.kind, sy0.lo, sy0.hi, lo, hi, cur["dt"], cur["mn"], cur["mx"])
+            q = Problem(sy, pb.boxes, pb.starts, pb.goal, pb.thr, pb.goal_kind)
+            per_solve.append((q, (list(hull[0]), list(hull[1])), reconfigured))
+            i += 2
+        elif o == "clear":
+            hull = None
+            i += 1
+        elif o == "cb":
+            v = [F(x) for x in ops[i + 1:i + 5]]
+            cur["clo"], cur["chi"] = [v[0], v[1]], [v[2], v[3]]
+            reconfigured = True
+            i += 5
+        elif o == "mm":
+            cur["mn"], cur["mx"] = int(ops[i + 1]), int(ops[i + 2])
+            reconfigured = True
+            i += 3
+        elif o == "dt":
+            cur["dt"] = F(ops[i + 1])
+            reconfigured = True
+            i += 2
+        else:       # clearsol, setup
+            i += 1
+    return per_solve
+
+
+def judge_hist_output(pb, line, out):
+    """oracle over every solution path of every solve line of one history.  Returns [(solve index, chunk text, solution,
+    failures, stats, strict)], strict = the controls were judged against the CURRENT bounds (no wider hull)."""
+    per = hist_walk(pb, line)
+    res = []
+    for si, ln in enumerate(out):
+        if si >= len(per):
+            break
+        q, hull, _rec = per[si]
+        strict = hull == (q.sy.clo, q.sy.chi)
+        chunks = ln.split(" || ")
+        for c in chunks[1:]:
+            sol = parse_solution(c, q.sy.nreals)
+            sol["status"] = "-"          # solve()'s status belongs to the path added last, judged by the caller
+            fails, stats = oracle(q, sol, cb_hull=hull)
+            res.append((si, c, sol, fails, stats, strict))
+    return res
+
+
+def gen_sampler_line(rng):
+    """one control sampler object kept across setBounds of its space (both control-space kinds)"""
+    disc = rng.chance(1, 2)
+    if disc:
+        lo = rng.range(-4, 4)
+        hi = lo + rng.choice([0, 1, 3, 7, 40])
+        t = ["sampler", "disc", str(lo), str(hi)]
+    else:
+        dim = rng.choice([1, 2, 2, 3])
+        lo = [rng.choice([-1.0, 0.0, -0.5, 2.0]) for _ in range(dim)]
+        hi = [l + rng.choice([0.0, 0.5, 1.0, 3.0]) for l in lo]
+        t = ["sampler", "real", str(dim)] + [B(x) for x in lo] + [B(x) for x in hi]
+    t += ["lseed=%d" % rng.below(2000000000), "ops"]
+    for _ in range(rng.range(3, 40)):
+        r = rng.below(10)
+        if r < 5:
+            t.append(rng.choice(["S", "S", "N"]))
+        elif r < 7:
+            a = rng.range(0, 5)
+            t += ["K", str(a), str(a + rng.choice([0, 1, 9, 50]))]
+        elif r < 9:
+            if disc:
+                lo = lo + rng.choice([-9, -1, 0, 0, 2, 11])
+                hi = lo + rng.choice([0, 1, 2, 5, 30])
+                t += ["B", str(lo), str(hi)]
+            else:
+                lo = [l + rng.choice([-2.0, 0.0, 0.25, 1.5]) for l in lo]
+                hi = [l + rng.choice([0.0, 0.125, 1.0, 2.5]) for l in lo]
+                t += ["B"] + [B(x) for x in lo] + [B(x) for x in hi]
+        else:
+            t += ["R", str(rng.below(2000000000))]
+    return " ".join(t)
+
+
+def sampler_oracle(line, out):
+    """every draw within the bounds in force WHEN IT WAS DRAWN, every step count within the requested range"""
+    t = line.split()
+    if t[0] != "sampler" or out == "bad-op":
+        return None
+    disc = t[1] == "disc"
+    i = 2
+    dim = 1
+    if not disc:
+        dim = int(t[2])
+        i = 3
+
+    def rd(i):
+        if disc:
+            return ([float(int(t[i]))], [float(int(t[i + 1]))]), i + 2
+        return ([F(x) for x in t[i:i + dim]], [F(x) for x in t[i + dim:i + 2 * dim]]), i + 2 * dim
+    (lo, hi), i = rd(i)
+    i += 2      # lseed, ops
+    o = out.split()[1:]
+    j = 0
+    nd = 0
+    while i < len(t):
+        w = t[i]
+        i += 1
+        if w == "B":
+            (lo, hi), i = rd(i)
+        elif w in ("S", "N"):
+            if j >= len(o) or o[j] != "S":
+                return "draw %d missing in the output" % nd
+            v = [float(int(x)) for x in o[j + 1:j + 2]] if disc else [F(x) for x in o[j + 1:j + 1 + dim]]
+            j += 1 + dim
+            nd += 1
+            if len(v) != dim or any(not (l <= x <= h) for l, x, h in zip(lo, v, hi)):
+                return "draw %d = %s lies outside the bounds [%s, %s] the control space has when it is drawn" % (nd, v, lo, hi)
+        elif w == "K":
+            a, b = int(t[i]), int(t[i + 1])
+            i += 2
+            if j + 1 >= len(o) or o[j] != "K":
+                return "step count missing in the output"
+            k = int(o[j + 1])
+            j += 2
+            if not (a <= k <= b):
+                return "sampleStepCount(%d, %d) returned %d" % (a, b, k)
+        elif w == "R":
+            i += 1
+    return None
+
+
+def gen_dsampler_line(rng):
+    """one SimpleDirectedControlSampler kept across setBounds / setMinMaxControlDuration / setPropagationStepSize"""
+    kind = rng.choice(["point", "uni", "dint", "car", "dpoint", "dpoint"])
+    sy = make_sys(kind, rng.below(7))
+    boxes = [([4.0, 0.0], [5.0, 6.5])] if rng.chance(1, 2) else []
+    t = ["dsampler"] + sy.toks() + ["boxes", "2", str(len(boxes))] + [B(x) for lo, hi in boxes for x in list(lo) + list(hi)]
+    t += ["k=%d" % rng.choice([1, 2, 3, 5]), "lseed=%d" % rng.below(2000000000), "ops"]
+    clo, chi = list(sy.clo), list(sy.chi)
+    for _ in range(rng.range(3, 16)):
+        r = rng.below(10)
+        if r < 5:
+            src = full_state(kind, [rng.uniform(0.5, 9.5), rng.uniform(0.5, 9.5)], rng)
+            dst = full_state(kind, [rng.uniform(0.5, 9.5), rng.uniform(0.5, 9.5)], rng)
+            t += ["T"] + [B(x) for x in src] + [B(x) for x in dst]
+        elif r < 7:
+            clo, chi, _ = new_bounds(rng, sy, clo, chi, ["narrower", "shifted", "wider"])
+            t += ["B", B(clo[0]), B(clo[1]), B(chi[0]), B(chi[1])]
+        elif r < 8:
+            mn = rng.choice([1, 2, 5])
+            t += ["M", str(mn), str(mn + rng.choice([0, 2, 10]))]
+        elif r < 9:
+            t += ["D", B(rng.choice([0.1, 0.25, 0.3, 0.7]))]
+        else:
+            t += ["R", str(rng.below(2000000000))]
+    return " ".join(t)
+
+
+def dsampler_oracle(line, out):
+    """each sampleTo result: control within the CURRENT bounds, at most the CURRENT maxControlDuration steps, the reached
+    state = the source propagated that many steps of the CURRENT step size, every step valid"""
+    t = line.split()
+    if t[0] != "dsampler" or out == "bad-op":
+        return None
+    kind = t[1]
+    nb, nr = NB[kind], NR[kind]
+    i = 2
+    fl = [F(x) for x in t[i:i + 2 * nb + 4]]
+    i += 2 * nb + 4
+    sy = Sys(kind, fl[:nb], fl[nb:2 * nb], fl[2 * nb:2 * nb + 2], fl[2 * nb + 2:], F(t[i]), int(t[i + 1]), int(t[i + 2]))
+    i += 3
+    k = int(t[i + 2])
+    i += 3
+    boxes = []
+    for _ in range(k):
+        v = [F(x) for x in t[i:i + 4]]
+        boxes.append((v[:2], v[2:]))
+        i += 4
+    i += 3      # k= lseed= ops
+    clo, chi, dt, mx = list(sy.clo), list(sy.chi), sy.dt, sy.mx
+    o = out.split()[1:]
+    j = 0
+    nt = 0
+    while i < len(t):
+        w = t[i]
+        i += 1
+        if w == "B":
+            v = [F(x) for x in t[i:i + 4]]
+            clo, chi = v[:2], v[2:]
+            i += 4
+        elif w == "M":
+            mx = int(t[i + 1])
+            i += 2
+        elif w == "D":
+            dt = F(t[i])
+            i += 1
+        elif w == "R":
+            i += 1
+        elif w == "T":
+            src = [F(x) for x in t[i:i + nr]]
+            i += 2 * nr
+            if j >= len(o) or o[j] != "T":
+                return "sampleTo result %d missing" % nt
+            u = [F(o[j + 1]), F(o[j + 2])]
+            n = int(o[j + 3])
+            got = [F(x) for x in o[j + 4:j + 4 + nr]]
+            j += 4 + nr
+            nt += 1
+            if not (clo[0] <= u[0] <= chi[0] and clo[1] <= u[1] <= chi[1]):
+                return "sampleTo #%d returned the control %s outside the bounds [%s, %s] the control space has at that call" % (nt, u, clo, chi)
+            if n > mx:
+                return "sampleTo #%d returned %d steps, maxControlDuration is %d at that call" % (nt, n, mx)
+            st = list(src)
+            cur = Sys(kind, sy.lo, sy.hi, clo, chi, dt, 1, 1)
+            for q in range(n):
+                st = sys_step(kind, st, u, dt)
+                if not sys_valid(cur, boxes, st):
+                    return "sampleTo #%d: step %d of %d lands on an invalid state" % (nt, q + 1, n)
+            if st != got:
+                return "sampleTo #%d: the returned state is not the source propagated %d steps of %r under the returned control" % (nt, n, dt)
+    return None
+
+
+def gen_nest_lines(rng, nrand):
+    """re-entrancy: inside the k-th validity query (hook=v) / propagator call (hook=p) of one propagate /
+    propagateWhileValid call a COMPLETE second call runs on the same SpaceInformation.  Returns [(nest line, outer alone,
+    inner alone)]; both parts of the nest line's output must equal the two calls alone."""
+    res = []
+    forms = [["single"], ["alias"], ["vec", "1"], ["vec", "0", "3"], ["vec", "0", "9"]]
+
+    def call(op, f, steps, st, ct):
+        return [op] + f + [str(steps), "st"] + [B(x) for x in st] + ["ct"] + [B(x) for x in ct]
+
+    def one(kind, variant, env, hook, at, c1, c2):
+        sy = make_sys(kind, variant)
+        envt = ["boxes", "2", str(len(env))] + [B(x) for lo, hi in env for x in list(lo) + list(hi)]
+        nl = " ".join(["nest"] + sy.toks() + envt + ["hook=" + hook, "at=%d" % at] + call(*c1) + call(*c2))
+
+        def alone(c):
+            op, f, steps, st, ct = c
+            return " ".join([op] + sy.toks() + f + [str(steps)] + (["v", "e"] + envt if op == "pwv" else []) + ["st"] + [B(x) for x in st] + ["ct"] + [B(x) for x in ct])
+        al = nest_alone_lines(nl)
+        assert al == [alone(c1), alone(c2)], (al, alone(c1))
+        res.append((nl, al[0], al[1]))
+    wall = [([2.5, 0.0], [3.5, 10.0])]
+    for kind in ("point", "uni", "dint", "car", "dpoint"):
+        st = full_state(kind, [1.0, 3.0])
+        st2 = full_state(kind, [6.0, 6.0])
+        if kind == "dint":
+            st[2], st2[3] = 0.5, 0.75
+        ct = {"uni": [1.2, 0.4], "car": [1.3, 0.3], "dpoint": [0.0, 0.0], "dint": [0.9, 0.1]}.get(kind, [0.9, 0.2])
+        ct2 = {"uni": [0.7, -0.9], "car": [0.8, -0.4], "dpoint": [5.0, 0.0], "dint": [-0.5, 0.8]}.get(kind, [-0.6, 0.7])
+        for fo in forms:
+            for fi in forms:
+                # the nested call inside every validity query of a 6-step outer call that runs into the wall or not
+                for at in ((0, 1, 2, 4, 7) if fo == ["single"] or fi == ["single"] else (1, 3)):
+                    one(kind, 0, wall if at % 2 else [], "v", at, ("pwv", fo, 6, st, ct), ("pwv", fi, 5, st2, ct2))
+            one(kind, 0, [], "p", 2, ("prop", fo, 5, st, ct), ("pwv", ["single"], 4, st2, ct2))
+            one(kind, 0, [], "p", 1, ("pwv", fo, 5, st, ct), ("prop", ["vec", "1"], -3, st2, ct2))
+    for _ in range(nrand):
+        kind = rng.choice(["point", "uni", "dint", "car", "dpoint"])
+        sy = make_sys(kind, 0)
+
+        def rc():
+            st = full_state(kind, [rng.uniform(0.5, 9.5), rng.uniform(0.5, 9.5)], rng)
+            if kind == "dint":
+                st[2], st[3] = rng.uniform(-1.0, 1.0), rng.uniform(-1.0, 1.0)
+            ct = [rng.uniform(sy.clo[0], sy.chi[0]), rng.uniform(sy.clo[1], sy.chi[1])]
+            if kind == "dpoint":
+                ct = [float(rng.range(0, 7)), 0.0]
+            return (rng.choice(["pwv", "pwv", "pwv", "prop"]), rng.choice(forms), rng.range(-9, 12), st, ct)
+        env = [([3.0, 3.0], [6.0, 6.0])] if rng.chance(1, 2) else []
+        one(kind, rng.below(6), env, rng.choice(["v", "v", "p"]), rng.range(0, 8), rc(), rc())
+    return res
+
+
+def nest_alone_lines(line):
+    """the two calls of a `nest` line as stand-alone pwv / prop lines (for replay)"""
+    t = line.split()
+    kind = t[1]
+    nb, nr = NB[kind], NR[kind]
+    i = 2 + 2 * nb + 4 + 3
+    syt = t[1:i]
+    k = int(t[i + 2])
+    envt = t[i:i + 3 + 4 * k]
+    i += 3 + 4 * k + 2
+    res = []
+    for _ in range(2):
+        op = t[i]
+        j = i + 1
+        f = [t[j]]
+        if t[j] == "vec":
+            f.append(t[j + 1])
+            if t[j + 1] == "0":
+                f.append(t[j + 2])
+        j += len(f)
+        rest = t[j:j + 1 + 1 + nr + 1 + 2]
+        res.append(" ".join([op] + syt + f + [rest[0]] + (["v", "e"] + envt if op == "pwv" else []) + rest[1:]))
+        i = j + len(rest)
+    return res
+
 # ---------------------------------------------------------------------------------- running
 def run_one(ck, hbin, line, env=None):
     out, rc, err = ck.run_bin(hbin, ["control", line], timeout=900, env=env)
@@ -915,6 +1299,11 @@ def run(ck):
             if f.endswith(".txt"):
                 scripts.append(("corpus:" + f, [l.rstrip("\n") for l in open(os.path.join(d, f)) if l.strip()]))
     scripts.append(("pwv", ["control"] + gen_pwv_scripts(ck.rng.fork("pwv"), 300 if quick else 4000)))
+    rq = ck.rng.fork("reconf-ops")
+    rlines = [gen_sampler_line(rq) for _ in range(80 if quick else 1500)] + [gen_dsampler_line(rq) for _ in range(60 if quick else 1000)]
+    rlines += [x for tr in gen_nest_lines(rq, 100 if quick else 3000) for x in tr]
+    rlines += ["sampler disc 3 1 lseed=1 ops S", "sampler real 2 0 0 lseed=1 ops S", "sampler disc 0 3 lseed=1 ops Q", "dsampler", "nest point"]
+    scripts.append(("reconf-ops", ["control"] + rlines))
     plan_corpus = []
     hist_corpus = []
     for tag, script in scripts:
@@ -929,9 +1318,41 @@ def run(ck):
         ck.traces_validated += 1
         # the harness appends its call counters to pwv/prop lines after " | " (checked by pwv_oracle, not by the model)
         strip = [o.partition(" | ")[0] if ln.split()[0] in ("pwv", "prop") else o for ln, o in zip(lines, impl)] + impl[len(lines):]
-        for ln, o in zip(lines, impl):
+        for jdx, (ln, o) in enumerate(zip(lines, impl)):
             ck.count("op:" + ln.split()[0])
-            ck.case(ln, o != "bad-op" and ln.split()[0] in ("pwv", "prop"))
+            ck.case(ln, o != "bad-op" and ln.split()[0] in ("pwv", "prop", "sampler", "dsampler", "nest"))
+            rbad = sampler_oracle(ln, o) or dsampler_oracle(ln, o)
+            if ln.startswith("sampler ") and o != "bad-op":
+                ck.count("sampler-histories:%s" % ln.split()[1])
+                ck.count("sampler-histories:draws", o.count(" S "))
+                ck.count("sampler-histories:setBounds", ln.count(" B "))
+            if ln.startswith("dsampler ") and o != "bad-op":
+                ck.count("directed-sampler-histories:%s" % ln.split()[1])
+                ck.count("directed-sampler-histories:sampleTo", o.count(" T "))
+                ck.count("directed-sampler-histories:reconfigurations", ln.count(" B ") + ln.count(" M ") + ln.count(" D "))
+            if rbad:
+                ck.report({"engine": "control", "planner": "-", "clause": "sampler-current-bounds", "what": rbad}, script=["control", ln],
+                          expected="a draw depends on the control-space bounds / durations / step size at draw time", observed=[o[:2000], rbad],
+                          engine="control")
+                ck.log("property failure: control sampler under reconfiguration: %s" % rbad)
+                break
+            if ln.startswith("nest ") and o != "bad-op":
+                al = nest_alone_lines(ln)
+                p1, _, p2 = o.partition(" ## ")
+                ck.count("nest:hook=%s:%s" % (ln.split("hook=")[1][0], "nested-call-ran" if p2 != "not-run" else "outer-call-too-short"))
+                if lines[jdx + 1:jdx + 3] == al and jdx + 2 < len(impl):
+                    a1, a2 = impl[jdx + 1].partition(" | ")[0], impl[jdx + 2].partition(" | ")[0]
+                    nbad = None
+                    if p1 != a1:
+                        nbad = "the outer call returns `%s` when a nested call runs inside it, `%s` alone" % (p1[:300], a1[:300])
+                    elif p2 != "not-run" and p2 != a2:
+                        nbad = "the nested call returns `%s`, `%s` alone" % (p2[:300], a2[:300])
+                    if nbad:
+                        ck.report({"engine": "control", "planner": "-", "clause": "propagate-reentrant", "what": nbad}, script=["control", ln, al[0], al[1]],
+                                  expected="a propagation nested inside another one on the same SpaceInformation: both results as for each call alone",
+                                  observed=[o[:2000], nbad], engine="control")
+                        ck.log("property failure: propagate/propagateWhileValid re-entrancy: %s" % nbad)
+                        break
             if "alias" in ln.split() and ln.startswith("pwv") and o.startswith("r=0 ") and int(ln.split("alias ")[1].split()[0]) != 0:
                 ck.count("pwv:aliased-first-step-invalid (F13: buffer keeps the invalid state)")
             pbad = path_ops_oracle(ln, o)
@@ -1186,6 +1607,26 @@ def run(ck):
             line = " ".join(["hist", planner] + pb.toks() + ["k=1", "bias=" + B(0.05), "seed=%d" % rh.below(100000), "ops", "solve", "4000",
                                                              "clearsol", "solve", str(rh.choice([300, 1500]))])
             hjobs.append((planner, pb, line, False))
+    # reconfiguration histories: every planner x both control-space kinds; between the solves the control bounds
+    # (narrower / shifted / wider), the duration range and the step size change, with and without clear() / setup(); some runs
+    # with a validity checker that runs nested propagations on the same SpaceInformation (re-entrancy)
+    rr2 = ck.rng.fork("reconf")
+    for planner in PLANNERS:
+        for kind, reps in (("point", 1), ("uni", 1), ("dint", 1), ("car", 1), ("ode", 1), ("dpoint", 3)) if quick else \
+                (("point", 4), ("uni", 4), ("dint", 4), ("car", 4), ("ode", 3), ("dpoint", 10)):
+            for rep in range(reps):
+                pb = std_problem(kind, rr2.below(7), rr2.choice(["empty", "wall", "two"]), "pos") if rep % 2 == 0 else random_problem(rr2, kind)
+                if planner.startswith("Syclop"):
+                    pb.goal_kind = "pos"
+                ops, tags = gen_reconf_ops(rr2, pb.sy, rr2.choice([1, 2, 2]))
+                steer = 1 if (kind == "point" and rr2.chance(1, 3)) else 0
+                extra = (["steer=1"] if steer else []) + (["nest=%d" % rr2.choice([1, 3, 7])] if rr2.chance(1, 3) else [])
+                line = " ".join(["hist", planner] + pb.toks() + ["k=%d" % (1 if steer else rr2.choice([1, 2, 3])), "bias=" + B(rr2.choice([0.05, 0.0, 0.3])),
+                                                                 "seed=%d" % rr2.below(100000)] + extra + ["ops"] + ops)
+                for tg in tags:
+                    ck.count("reconfiguration:" + tg)
+                ck.count("reconfiguration:control-space:%s" % ("discrete" if kind == "dpoint" else "real-vector"))
+                hjobs.append((planner, pb, line, "clear" in ops))
     for line in hist_corpus:
         t = line.split()
         hjobs.append((t[1], parse_plan_line(" ".join(["plan"] + t[1:t.index("ops")] + ["budget=0"]))[1], line, "clear" in t))
@@ -1202,35 +1643,43 @@ def run(ck):
                 ck.log("history run of %s failed: rc=%s" % (planner, rc))
                 continue
             nsol = 0
-            for ln in out:
-                chunks = ln.split(" || ")
-                hdr = dict(x.split("=") for x in chunks[0].split()[1:] if "=" in x)
-                sols = []
-                for c in chunks[1:]:
-                    sol = parse_solution(c, pb.sy.nreals)
-                    sol["status"] = "-"          # solve()'s status belongs to the path added last, judged below
-                    fails, stats = oracle(pb, sol)
-                    sols.append((sol, stats))
-                    nsol += 1
-                    ck.count("history:solution-paths-judged")
-                    for f in fails:
-                        key = "reported:history:%s:%s" % (planner, f["clause"])
-                        ck.count(key)
-                        if ck.dist[key] <= 3:
-                            hclass = "solve-clearsol-solve" if " clearsol " in line else ("with-clear" if has_clear else "continue")
-                            ck.report({"engine": "control", "planner": planner, "clause": "history:" + f["clause"], "system": pb.sy.kind,
-                                       "goal_kind": pb.goal_kind, "history_class": hclass, "flagged_exact": not sol["approx"],
-                                       "solve_line": out.index(ln)},
-                                      script=["control", line], expected="replayOK after a continued / restarted solve: " + f["clause"],
-                                      observed=[c[:3000], f["detail"]], engine="control") and \
-                                ck.log("property failure (history): %s %s: %s" % (planner, f["clause"], f["detail"]))
+            reconf = any(x in line.split() for x in ("cb", "mm", "dt"))
+            hclass = "solve-clearsol-solve" if (" clearsol " in line and not reconf) else ("with-clear" if has_clear else "continue")
+            if reconf:
+                hclass = "reconfigured"
+                ck.count("history-runs:reconfigured")
+                if " nest=" in line:
+                    ck.count("history-runs:reconfigured:nested-propagation-in-isValid")
+            judged = judge_hist_output(pb, line, out)
+            by_solve = {}
+            for si, c, sol, fails, stats, strict in judged:
+                by_solve.setdefault(si, []).append((sol, stats))
+                nsol += 1
+                ck.count("history:solution-paths-judged")
+                if reconf:
+                    ck.count("history:reconfigured:paths-judged-against-%s" % ("current-bounds" if strict else "hull-since-last-clear"))
+                    ck.count("history:reconfigured:segments", stats["segments"])
+                for f in fails:
+                    key = "reported:history:%s:%s" % (planner, f["clause"])
+                    ck.count(key)
+                    if ck.dist[key] <= 3:
+                        ck.report({"engine": "control", "planner": planner, "clause": "history:" + f["clause"], "system": pb.sy.kind,
+                                   "goal_kind": pb.goal_kind, "history_class": hclass, "flagged_exact": not sol["approx"],
+                                   "solve_line": si},
+                                  script=["control", line], expected="replayOK after a continued / restarted / reconfigured solve: " + f["clause"],
+                                  observed=[c[:3000], f["detail"]], engine="control") and \
+                            ck.log("property failure (history): %s %s: %s" % (planner, f["clause"], f["detail"]))
+            for si, ln in enumerate(out):
+                hdr = dict(x.split("=") for x in ln.split(" || ")[0].split()[1:] if "=" in x)
+                if "nested" in hdr and " nest=" in line:
+                    ck.count("history:nested-propagations", int(hdr["nested"]) if si == len(out) - 1 else 0)
+                sols = by_solve.get(si, [])
                 if hdr.get("status") == "EXACT_SOLUTION" and not any((not so["approx"]) and st.get("in_goal") for so, st in sols):
                     key = "reported:history:%s:status" % planner
                     ck.count(key)
                     if ck.dist[key] <= 3:
-                        hclass = "solve-clearsol-solve" if " clearsol " in line else ("with-clear" if has_clear else "continue")
                         if ck.report({"engine": "control", "planner": planner, "clause": "history:status-exact-without-exact-path",
-                                      "system": pb.sy.kind, "goal_kind": pb.goal_kind, "history_class": hclass, "solve_line": out.index(ln)},
+                                      "system": pb.sy.kind, "goal_kind": pb.goal_kind, "history_class": hclass, "solve_line": si},
                                      script=["control", line], expected="EXACT_SOLUTION only with an exact path in the goal",
                                      observed=[ln[:3000]], engine="control"):
                             ck.log("property failure (history): %s returned EXACT_SOLUTION without an exact path in the goal" % planner)
@@ -1333,13 +1782,10 @@ def replay(ck, data):
         if t[0] == "hist":
             out, rc, err = run_one(ck, hbin, line, NOLEAK)
             pb = parse_plan_line(" ".join(["plan"] + t[1:t.index("ops")] + ["budget=0"]))[1]
-            for ln in out:
-                for c in ln.split(" || ")[1:]:
-                    sol = parse_solution(c, pb.sy.nreals)
-                    sol["status"] = "-"
-                    for f in oracle(pb, sol)[0]:
-                        print("PROPERTY FAILS [history:%s] %s" % (f["clause"], f["detail"]))
-                        rcode = 1
+            for si, c, sol, fails, stats, strict in judge_hist_output(pb, line, out):
+                for f in fails:
+                    print("PROPERTY FAILS [history:%s] solve #%d: %s" % (f["clause"], si, f["detail"]))
+                    rcode = 1
             print("hist %s -> %d solve lines, rc=%s" % (t[1], len(out), rc))
             if rc != 0:
                 rcode = 1
@@ -1385,6 +1831,18 @@ def replay(ck, data):
             if bad:
                 print("PROPERTY FAILS [pathcontrol]: " + bad)
                 rcode = 1
+            bad = sampler_oracle(line, o) or dsampler_oracle(line, o)
+            if bad:
+                print("PROPERTY FAILS [sampler-current-bounds]: " + bad)
+                rcode = 1
+            if t[0] == "nest" and o != "bad-op":
+                al = nest_alone_lines(line)
+                alone, _, _ = ck.run_bin(hbin, ["control"] + al)
+                p1, _, p2 = o.partition(" ## ")
+                a1, a2 = [x.partition(" | ")[0] for x in (alone or ["", ""])[:2]]
+                if p1 != a1 or (p2 != "not-run" and p2 != a2):
+                    print("PROPERTY FAILS [propagate-reentrant]: with the nested call `%s ## %s`, each call alone `%s ## %s`" % (p1, p2, a1, a2))
+                    rcode = 1
     if rcode == 0:
         print("no failure on the current tree")
     return rcode
